@@ -67,7 +67,12 @@ class Universe:
         self.conc = {}
         self.abs = {}
         self._build()
-        self.sym_of_id = {e["id"]: s for s, e in self.conc.items()}
+        self.sym_of_id = {}
+        self.syms_of_id = {}
+        for s in self.order:
+            e = self.conc[s]
+            self.sym_of_id.setdefault(e["id"], s)          # the first (listed) symbol wins for id-only look-ups
+            self.syms_of_id.setdefault(e["id"], []).append(s)
         self.rev = {}
         for s in list(self.symtab):
             try:
@@ -119,6 +124,8 @@ class Universe:
             for sym in list(pending):
                 d = self.descs[sym]
                 refs = [v for t in d.get("tags", []) for v in t[1:] if v in self.descs and v != sym]
+                if d.get("twin_of"):
+                    refs.append(d["twin_of"])
                 if any(r not in self.conc for r in refs):
                     continue
                 self._build_one(sym, d)
@@ -128,6 +135,15 @@ class Universe:
             raise ValueError("cyclic event references: %s" % pending)
 
     def _build_one(self, sym, d):
+        if d.get("twin_of"):
+            # the very same event as another symbol (same id), then mutated (e.g. its signature)
+            import copy
+
+            ev = copy.deepcopy(self.conc[d["twin_of"]])
+            ev = d["mutate"](ev, self)
+            self.conc[sym] = ev
+            self.abs[sym] = dict(self.abs[d["twin_of"]], auth=C.is_authentic(ev))
+            return
         tags = [self._conc_tag(t, d["pk"]) for t in d.get("tags", [])]
         content = self.palette(d.get("content", "c-" + sym)) if d.get("content", None) != "" else ""
         created_at = d.get("created_at", C.T0 + d["ts"])
@@ -166,16 +182,12 @@ class Universe:
         if not isinstance(ev, dict):
             ev = {"id": ev.id, "pubkey": ev.pubkey, "created_at": ev.created_at, "kind": ev.kind,
                   "tags": [list(t) for t in ev.tags], "content": ev.content, "sig": ev.sig}
-        sym = self.sym_of_id.get(ev.get("id"))
-        if sym is None:
-            return None
-        ref = self.conc[sym]
-        for k in ("id", "pubkey", "created_at", "kind", "content", "sig"):
-            if ev.get(k) != ref[k] or type(ev.get(k)) is not type(ref[k]):
-                return None
-        if [list(t) for t in ev.get("tags", [])] != ref["tags"]:
-            return None
-        return sym
+        for sym in self.syms_of_id.get(ev.get("id"), []):
+            ref = self.conc[sym]
+            if all(ev.get(k) == ref[k] and type(ev.get(k)) is type(ref[k]) for k in ("id", "pubkey", "created_at", "kind", "content", "sig")) \
+                    and [list(t) for t in ev.get("tags", [])] == ref["tags"]:
+                return sym
+        return None
 
     def sym_id(self, hexid):
         return self.sym_of_id.get(hexid, "?" + str(hexid)[:16])
